@@ -9,6 +9,7 @@ pub mod c14;
 pub mod c15;
 pub mod c16;
 pub mod c17;
+pub mod c18;
 pub mod c19;
 pub mod c20;
 pub mod tamper;
@@ -32,6 +33,7 @@ pub fn run(a: &Args) -> Result<ShardOut, String> {
         "C01" => Ok(c01::run(a)),
         "C16" => Ok(c16::run(a)),
         "C17" => Ok(c17::run(a)),
+        "C18" => Ok(c18::run(a)),
         "C19" => Ok(c19::run(a)),
         "C20" => Ok(c20::run(a)),
         "C02" => Ok(worldmon::run_c02(a)),
